@@ -478,13 +478,15 @@ def judge(rec, fam, ref, mexc, S, sname, label, d, exp, got, forbid):
 
 def explained_by(fam, mexc, S, sname, d, got):
     """is the observation exactly what a reference with ONE recorded finding's mechanism enabled predicts?"""
-    for q in ("F02", "F24"):
-        qref = Ref(fam, quirks=(q,))
+    # each recorded mechanism alone, then both together (one input can run into both: a NamedTuple with defaults whose
+    # first member is a union with a None member); the combination is attributed to the rarer one
+    for q in ("F02", "F24", ("F02", "F24")):
+        qref = Ref(fam, quirks=q if isinstance(q, tuple) else (q,))
         try:
             e = ("ok", qref.dec(("dc", sname), d, Ctx()))
         except RefError as ex:
             e = ("raise", ex)
         agree, sig, _ = classify(qref, mexc, S, sname, e, got)
         if agree:
-            return q
+            return q if isinstance(q, str) else "F24"
     return None
